@@ -60,6 +60,7 @@ ASSUMPTIONS = [
     "a process killed while writing leaves a byte prefix of the file it was writing (open('wb') + sequential writes); power loss / reordered blocks are not modelled",
     "Linux flock semantics (a killed process releases its FileLock); other operating systems are not covered",
     "the fixed query script (families per feature and sub-feature, device list, purposes, predecessor names, memory types, per-revision feature data of selected devices (6 in the quick tier, every 4th device with all its revisions in the thorough tier), three schema files, `nxpimage --help` and `nxpimage mbi get-families`) stands for 'every database query'",
+    "case selection is a function of VERIF_SEED; the interleaving inside the unconstrained `concurrent` part is left to the OS and is not reproducible - reproducible interleavings are what the rendezvous / kills / schedules parts are for",
     "schedules are explored at the sync points of the harness-side shim (names os/pickle/FileLock/open rebound in the namespace of spsdk.utils.database inside the child); preemption inside a C call is represented by the corresponding prefix state",
 ]
 # shares of *evaluations* (about 1.3e5 of them are stage-1 prefixes), hence the small numbers
